@@ -44,7 +44,7 @@ def repo_files():
     return out
 
 def harness_files():
-    return glob.glob(VERIF + '/harness/*.hpp') + glob.glob(VERIF + '/harness/*.h')
+    return glob.glob(VERIF + '/harness/*.hpp') + glob.glob(VERIF + '/harness/*.h') + [VERIF + '/harness/native_rt.cpp', VERIF + '/harness/libshim.cpp']
 
 class Lock:
     def __init__(self, path): self.path = path
